@@ -167,10 +167,16 @@ pub fn selftest_determinism(n: u64) -> i32 {
                             break;
                         }
                         let mut st = Stats::default();
-                        let chk: Box<dyn Check> = match run % 3 {
+                        let chk: Box<dyn Check> = match run % 9 {
                             0 => Box::new(c01::ModelCheck::new("C01", c01::Focus::General, Dev::default())),
                             1 => Box::new(diff::DiffCheck::new("C04", diff::DiffMode::Schedule)),
-                            _ => Box::new(diff::DiffCheck::new("C03", diff::DiffMode::Config)),
+                            2 => Box::new(diff::DiffCheck::new("C03", diff::DiffMode::Config)),
+                            3 => Box::new(c10::PqCheck { property: "C10", mode: c10::PqMode::Read }),
+                            4 => Box::new(c10::PqCheck { property: "C11", mode: c10::PqMode::Pushdown }),
+                            5 => Box::new(c17::CsvCheck { property: "C17", mode: c17::CsvMode::Single }),
+                            6 => Box::new(c17::CsvCheck { property: "C11", mode: c17::CsvMode::Multi }),
+                            7 => Box::new(c14::CatalogCheck { big: true }),
+                            _ => Box::new(c18::SchemaCheck),
                         };
                         let vs = chk.run_one(run, root.fork_idx("run", run), &mut st);
                         let mut d = crate::rng::Digest::new();
